@@ -171,6 +171,16 @@ impl DmlExecutor {
         // Build the full row with the assigned row ID
         let full_row = self.build_full_row(&schema, columns, values, row_id)?;
 
+        // The caller may supply the row id column itself (recovery replays logged rows with the
+        // ids they were logged with): the id that is stored is the row's id from here on, and the
+        // table's counter has to stay ahead of it -- otherwise a later INSERT is handed an id that
+        // is already taken and is silently dropped below.
+        let row_id = match &full_row[0] {
+            DataType::BigUInt(stored) => *stored,
+            _ => row_id,
+        };
+        let next_row_id = relation.next_row_id().value().max(row_id.value() + 1);
+
         // Constraint validation goes here.
         self.validate_insert_constraints(&relation, full_row.as_slice())?;
         let indexes = relation.get_indexes();
@@ -215,7 +225,7 @@ impl DmlExecutor {
         // Update relation metadata
         self.ctx.catalog().update_relation(
             relation.object_id(),
-            Some(relation.next_row_id().value()),
+            Some(next_row_id),
             None,
             None,
             &tree_builder,
